@@ -362,6 +362,9 @@ pub fn g_contexts(base: &[Node]) -> Vec<Node> {
         out.push(Concat(vec![Look(b(Concat(vec![ContG, Any(false), Any(false)])), true, false), x.clone()]));
         out.push(Concat(vec![Look(b(Concat(vec![ContG, Any(false)])), true, true), x.clone()]));
         out.push(Alt(vec![Node::lit("aa"), Concat(vec![Look(b(Concat(vec![ContG, Any(false), Any(false)])), true, false), x.clone()])]));
+        // a leading literal that a look-behind steps back over, to a `\G` / `\K`
+        out.push(Concat(vec![la(), Look(b(Concat(vec![ContG, la()])), true, false), x.clone()]));
+        out.push(Concat(vec![lb(), Look(b(Concat(vec![KeepOut, la(), lb()])), true, false), x.clone()]));
     }
     out
 }
